@@ -11,4 +11,5 @@ pub mod sddi;
 pub mod exprgen;
 pub mod semi;
 pub mod fnsrc;
+pub mod textgen;
 pub mod props;
